@@ -20,16 +20,23 @@ Definition chrono_max : Z := 8210266876799.
 Definition from_timestamp (z : Z) : option Z :=
   if (chrono_min <=? z) && (z <=? chrono_max) then Some z else None.
 
+(** [line.strip_prefix("#")]. *)
+Definition strip_hash (l : str) : option str :=
+  match l with
+  | c :: r => if N.eqb c HASH then Some r else None
+  | [] => None
+  end.
+
 (** One step of the loop of [History::import]. *)
 Definition import_line (st : hist * option Z) (line : str) : hist * option Z :=
   let '(h, nts) := st in
-  match line with
-  | 35%N :: comment =>
+  match strip_hash line with
+  | Some comment =>
       match parse_i64 (trim comment) with
       | Some z => (h, from_timestamp z)
       | None => (h, None)
       end
-  | _ => (hadd h line nts false, None)
+  | None => (hadd h line nts false, None)
   end.
 
 Definition import (f : list str) : hist := fst (fold_left import_line f (empty_hist, None)).
